@@ -584,6 +584,12 @@ def to_crlf(src):
     return src.replace("\r\n", "\n").replace("\n", "\r\n")
 
 
+def to_mixed(rng, src):
+    """every line ending independently LF or CRLF (newline_style = auto looks at the FIRST one only)"""
+    parts = src.replace("\r\n", "\n").split("\n")
+    return "".join(p + (rng.choice(["\n", "\r\n"]) if i + 1 < len(parts) else "") for i, p in enumerate(parts))
+
+
 # ------------------------------------------------------------------------------------ generated designs
 
 class Gen:
